@@ -316,7 +316,7 @@ def check_offsets_only(ctx, fx):
     from rules import c07_acct
     nfun, npath = c07_acct.check(ctx, fx, eds, "S6")
     ctx.floor("S6", nfun, 18, "editor functions simulated")
-    ctx.floor("S6", npath, 160, "accounted paths with buffer edits")
+    ctx.floor("S6", npath, 140, "accounted paths with buffer edits")
     nshift = 0
     for f, binding in eds:
         mon = OffsetMonitor(fx)
